@@ -491,6 +491,9 @@ pub async fn clear_buffered_meta_loop(
                 tokio::time::sleep(Duration::from_secs(2)).await;
             }
 
+            #[cfg(feature = "verif")]
+            klukai_types::verif::emit("clear_buf.done", &actor_id.to_string());
+
             Ok::<_, eyre::Report>(())
         });
     }
